@@ -6,7 +6,10 @@ Enumerated (complete product, no sampling):
   x (source align_corners, target align_corners) in {T,F}^2
   x interpolation {linear, nearest} x padding {zeros, border, constant -3.5}
   x API / batch forms {Image.sample(grid), ImageBatch.sample(grid | [grids]) with N=1, N=2 shared grid, N=2 per-image
-    grids, sample(coords), SampleImage, AlignImage(None), TransformImage(None)}
+    grids, sample(coords), SampleImage, AlignImage(None), TransformImage(None)}; the three module APIs additionally
+    with every explicit `axes` value (grid, world, cube, cube_corners), the target points being handed in those axes
+Every sampling call is executed twice on the same receiver / input objects: the inputs must be bit-identical before
+and after the call (signature .../input-mutated) and the two results must be bit-identical (.../repeat-call).
 
 Oracle: SimpleITK's resampler (identity transform, same headers) at every target sample whose continuous source
 index lies in [0, n-1]^D; outside it the own numpy interpolator (ref/interp.py) with the documented padding
@@ -29,7 +32,8 @@ from ref.grid import RefGrid
 PROPERTY = "C05"
 RULE = (
     "complete product source grid x target menu x (source, target) align_corners x interpolation x padding x API/batch "
-    "form, executed on the real code and compared sample by sample with SimpleITK (inside the source field of view) and "
+    "form (module APIs also x explicit axes in {grid, world, cube, cube_corners}), every call executed twice on the same "
+    "objects (inputs fingerprinted before/after, results bit-identical), executed on the real code and compared sample by sample with SimpleITK (inside the source field of view) and "
     "an own float64 interpolator (padding region); distinct = exact bits of the returned tensor; non-trivial = target "
     "differs from the source grid and at least 25% of its samples lie inside the source field of view"
 )
@@ -42,10 +46,10 @@ ASSUMPTIONS = [
     "nearest neighbour: samples within 1e-3 of a tie are not judged; samples within 1e-3 outside the boundary of the field of view are not judged (knife-edge rule)",
     "impulse images on sources with <= 12 voxels recover the whole sampling operator (linearity), other sources carry an integer pattern in [0, 100]",
 ]
-# measured (quick): 27648 configurations, 2943 distinct result tensors, 19836 non-trivial; thorough = 3 x the sources
-MIN_NONTRIVIAL = {"quick": 10000, "thorough": 25000}
-MIN_OUTCOMES = {"quick": 1400, "thorough": 3000}
-MIN_SUB_TRACES = {"fov": 13000, "own-grid": 450, "coords": 3400, "padding": 5500}
+# measured (quick): 48384 configurations, 3875 distinct result tensors, 34668 non-trivial; thorough = 3 x the sources
+MIN_NONTRIVIAL = {"quick": 17000, "thorough": 40000}
+MIN_OUTCOMES = {"quick": 1900, "thorough": 4000}
+MIN_SUB_TRACES = {"fov": 24000, "own-grid": 450, "coords": 3400, "padding": 9900, "input-fingerprint": 24000, "repeat-call": 24000}
 
 EPS32 = 2.0 ** -23
 CTOL = 64.0
@@ -187,6 +191,8 @@ def content(n, item: int) -> np.ndarray:
 def itk_resample(src_arr: np.ndarray, src: RefGrid, tgt: RefGrid, mode: str) -> np.ndarray:
     import SimpleITK as sitk
 
+    if sitk.ProcessObject.GetGlobalDefaultNumberOfThreads() != 1:
+        sitk.ProcessObject.SetGlobalDefaultNumberOfThreads(1)  # tiny images: the thread pool costs 100x the work
     D = src.D
     C = src_arr.shape[0]
     arr = np.ascontiguousarray(np.moveaxis(src_arr, 0, -1))
